@@ -1299,7 +1299,27 @@ class Engine:
             self.enter_closure(st, fr, f, f, cargs, Loc(tmp), -1)
         elif isinstance(f, FnV):
             body = self.find_body(f.path)
-            if body is None or not (self.inline(f.path, f.path) or self.inline_fn_values):
+            red_g = None
+            if body is None:
+                # a trait function passed by name (`.map(T::try_from)`): the same redirects as for a direct call, with the
+                # generic arguments the function value was instantiated with
+                red = self.redirect.get(f.path)
+                if callable(red):
+                    synth = {"callee": {"path": f.path, "gargs": [str(g) for g in f.gargs], "trait": f.path.rsplit("::", 1)[0], "method": f.path.rsplit("::", 1)[-1]}, "args": [], "line": (t or {}).get("line")}
+                    red = red(self, st, synth, f.path, list(cargs))
+                if isinstance(red, tuple):
+                    red, red_g = red
+                if red is not None and not isinstance(red, str):
+                    body = red
+                elif isinstance(red, str):
+                    body = self.find_body(red)
+                if body is not None:
+                    nf_ = self.push_frame(st, body, list(cargs), Loc(tmp), -1)
+                    nf_.gargs = tuple(red_g) if red_g is not None else self.concrete_gargs(st, {"gargs": [str(g) for g in f.gargs]})
+                    body = "pushed"
+            if body == "pushed":
+                pass
+            elif body is None or not (self.inline(f.path, f.path) or self.inline_fn_values):
                 m = self.models.get(f.path)
                 if m is not None:
                     r = m(self, st, fr, t, f.path, f.path, list(cargs))
@@ -1321,9 +1341,10 @@ class Engine:
                         return [(st, EnumV(parent, last, ds[0], {i: a for i, a in enumerate(cargs)}))]
                 st.trace.append(Event("call", f.path, f.path, tuple(snapshot(a) for a in cargs), fr.bi, "?", len(st.frames), fr.body.npath if fr.body else "?"))
                 return [(st, st.fresh(("ret", f.path)))]
-            nf_ = self.push_frame(st, body, list(cargs), Loc(tmp), -1)
-            if f.gargs:
-                nf_.gargs = tuple(f.gargs)      # a model that knows the instantiation hands it over with the function value
+            else:
+                nf_ = self.push_frame(st, body, list(cargs), Loc(tmp), -1)
+                if f.gargs:
+                    nf_.gargs = tuple(f.gargs)      # a model that knows the instantiation hands it over with the function value
         else:
             return [(st, st.fresh(("ret-unknown-fn",)))]
         # run nested frames until the stack is back at `base`
